@@ -17,7 +17,7 @@ Every emitted child is one node of the kind given (`*` = one expression node, wh
 Theorems (all combinations, by case analysis on the Boolean part and arithmetic on the lengths):
 * `count_eq_emit_select : WfSel s → countSel s = (emitSel s).length`
 * `count_eq_emit_select_inherited : WfSel s → s.withN = 0 → countSel s + 1 = (emitSelInherited s).length`
-* `count_eq_emit_union : WfUnion u → countUnion u = (emitUnion u).length`
+* `count_eq_emit_union : countUnion u = (emitUnion u).length` (no hypothesis since /repo 7b64ed643)
 and the *negative* results showing every hypothesis is needed (`…_needs_…`): each hypothesis is an AST
 invariant the printers rely on; the harness checks them on every AST `Parse` returns (p_c04.go).
 -/
@@ -225,12 +225,14 @@ structure UnionShape where
   legacy : Bool              -- some sel is a *SelectQuery with SettingsAfterFormat && len(Settings) > 0
   deriving Repr, DecidableEq
 
-/-- select.go `countSelectUnionChildren` -/
+/-- select.go `countSelectUnionChildren` (as repaired by /repo 7b64ed643: it now tests the guards of
+the emission one by one) -/
 def countUnion (u : UnionShape) : Nat :=
   1                                                         -- count := 1 // ExpressionList of selects
   + bit u.anyOutfile                                        -- for … if sq.IntoOutfile != nil { count++; break }
   + bit u.anyFormat                                         -- for … if sq.Format != nil { count++; break }
-  + (if pos u.settingsN && (u.before || u.after) then 1     -- if len(n.Settings) > 0 && (Before || After) { count++ }
+  + bit (u.before && pos u.settingsN)                       -- if n.SettingsBeforeFormat && len(n.Settings) > 0 { count++ }
+  + (if u.after && pos u.settingsN then 1                   -- if n.SettingsAfterFormat && len(n.Settings) > 0 { count++ }
      else bit u.legacy)                                     -- else { for … if sq.SettingsAfterFormat && len(sq.Settings) > 0 { count++; break } }
 
 /-- select.go `explainSelectWithUnionQuery` (and, statement for statement, the tail of
@@ -243,16 +245,34 @@ def emitUnion (u : UnionShape) : List String :=
   ++ (if u.after && pos u.settingsN then ["Set"]            -- if n.SettingsAfterFormat && len(n.Settings) > 0
       else seg u.legacy "Set")                              -- else { legacy check }
 
-/-- The AST invariant the union pair needs: union-level SETTINGS were seen on one side of FORMAT only,
-and a union-level SETTINGS-before-FORMAT excludes a SELECT-level SETTINGS-after-FORMAT. -/
+/-- **Union pair.** No AST invariant is needed any more: every combination of the six guards. -/
+theorem count_eq_emit_union (u : UnionShape) : countUnion u = (emitUnion u).length := by
+  simp only [countUnion, emitUnion, List.length_append, List.length_cons, List.length_nil, length_seg]
+  generalize pos u.settingsN = s
+  cases u.anyOutfile <;> cases u.anyFormat <;> cases s <;> cases u.before <;> cases u.after <;>
+    cases u.legacy <;> decide
+
+/-! ### replay of the repaired defect
+
+Before 7b64ed643 the count read `if len(n.Settings) > 0 && (Before || After) { count++ } else { legacy }`
+and agreed with the emission only under the invariant `WfUnion` below, which `Parse` violates
+(`SELECT 1 SETTINGS a=1 SETTINGS b=2 FORMAT JSON SETTINGS c=3` sets Before and After;
+`SELECT 1 FORMAT JSON SETTINGS c=3 SETTINGS d=4` sets Before with a SELECT-level SETTINGS after FORMAT):
+the header said 3, four nodes were printed.  Found by this model's `WfUnion` hypothesis. -/
+
+/-- the count as it was before the repair -/
+def countUnionOld (u : UnionShape) : Nat :=
+  1 + bit u.anyOutfile + bit u.anyFormat
+  + (if pos u.settingsN && (u.before || u.after) then 1 else bit u.legacy)
+
+/-- the invariant the old pair needed -/
 def WfUnion (u : UnionShape) : Bool :=
   !pos u.settingsN || ((!u.before || !u.after) && (!u.before || !u.legacy))
 
-/-- **Union pair.** -/
-theorem count_eq_emit_union (u : UnionShape) (h : WfUnion u = true) :
-    countUnion u = (emitUnion u).length := by
+theorem old_count_eq_emit_union (u : UnionShape) (h : WfUnion u = true) :
+    countUnionOld u = (emitUnion u).length := by
   simp only [WfUnion] at h
-  simp only [countUnion, emitUnion, List.length_append, List.length_cons, List.length_nil, length_seg]
+  simp only [countUnionOld, emitUnion, List.length_append, List.length_cons, List.length_nil, length_seg]
   generalize pos u.settingsN = s at *
   revert h
   cases u.anyOutfile <;> cases u.anyFormat <;> cases s <;> cases u.before <;> cases u.after <;>
@@ -261,10 +281,11 @@ theorem count_eq_emit_union (u : UnionShape) (h : WfUnion u = true) :
 def badUnion1 : UnionShape := ⟨false, true, 1, true, true, false⟩
 def badUnion2 : UnionShape := ⟨false, true, 1, true, false, true⟩
 
-/-- both conjuncts of `WfUnion` are needed; `Parse` DOES produce both shapes
-(`SELECT 1 SETTINGS a=1 SETTINGS b=2 FORMAT JSON SETTINGS c=3`, `SELECT 1 FORMAT JSON SETTINGS c=3 SETTINGS d=4`). -/
-theorem union_needs_one_side : countUnion badUnion1 ≠ (emitUnion badUnion1).length := by decide
-theorem union_needs_no_legacy : countUnion badUnion2 ≠ (emitUnion badUnion2).length := by decide
+/-- the two shapes `Parse` produces on which the old count was wrong (3 announced, 4 printed) … -/
+theorem old_union_needs_one_side : countUnionOld badUnion1 = 3 ∧ (emitUnion badUnion1).length = 4 := by decide
+theorem old_union_needs_no_legacy : countUnionOld badUnion2 = 3 ∧ (emitUnion badUnion2).length = 4 := by decide
+/-- … and on which the repaired count is right. -/
+example : countUnion badUnion1 = 4 ∧ countUnion badUnion2 = 4 := by decide
 
 /-! ## non-vacuity -/
 
@@ -313,7 +334,7 @@ def handle (op : String) (args : List String) : Option String :=
     | [a] =>
       match (parseNats a).bind unionOfNats with
       | none => some "bad-arg"
-      | some u => some (answer (countUnion u) (WfUnion u) (emitUnion u))
+      | some u => some (answer (countUnion u) true (emitUnion u))
     | _ => some "bad-arg"
   else none
 
